@@ -13,6 +13,7 @@ import (
 	"sort"
 
 	v1 "k8s.io/api/core/v1"
+	"k8s.io/apimachinery/pkg/api/resource"
 	metav1 "k8s.io/apimachinery/pkg/apis/meta/v1"
 	"k8s.io/apimachinery/pkg/types"
 	"k8s.io/apimachinery/pkg/util/sets"
@@ -25,6 +26,7 @@ import (
 	"volcano.sh/volcano/pkg/scheduler/conf"
 	"volcano.sh/volcano/pkg/scheduler/framework"
 	"volcano.sh/volcano/pkg/scheduler/plugins"
+	"volcano.sh/volcano/pkg/scheduler/plugins/capacity"
 	"volcano.sh/volcano/pkg/scheduler/plugins/conformance"
 	"volcano.sh/volcano/pkg/scheduler/plugins/gang"
 	"volcano.sh/volcano/pkg/scheduler/plugins/priority"
@@ -38,9 +40,10 @@ const (
 	KPrio = 2
 	KConf = 3
 	KProp = 4
+	KCap  = 5
 )
 
-var kindName = map[int64]string{KGang: gang.PluginName, KPrio: priority.PluginName, KConf: conformance.PluginName, KProp: proportion.PluginName}
+var kindName = map[int64]string{KGang: gang.PluginName, KPrio: priority.PluginName, KConf: conformance.PluginName, KProp: proportion.PluginName, KCap: capacity.PluginName}
 
 type Plug struct {
 	Kind     int64
@@ -58,6 +61,8 @@ type Spec struct {
 	JSys    map[int64]bool  // the job's pods live in kube-system
 	TClass  map[int64]int64 // 0 none, 1 system-cluster-critical, 2 system-node-critical
 	QRecl   map[int64]int64 // Queue.Spec.Reclaimable: 0 nil, 1 true, 2 false
+	QGuar   map[int64][2]int64 // Queue.Spec.Guarantee.Resource: cpu milli, memory bytes (0 = not set)
+	QDes    map[int64][2]int64 // Queue.Spec.Deserved
 	Tiers   [][]Plug
 	Actions []int64 // 1 preempt, 2 reclaim
 	Faults  [][2]int64 // (task, node): the allocate event handler reports Event.Err for this placement
@@ -106,6 +111,10 @@ func (c Spec) Enc() []int64 {
 	for _, q := range c.Queues {
 		out = append(out, q.ID, c.QRecl[q.ID])
 	}
+	out = append(out, int64(len(c.Queues)))
+	for _, q := range c.Queues {
+		out = append(out, q.ID, c.QGuar[q.ID][0], c.QGuar[q.ID][1], c.QDes[q.ID][0], c.QDes[q.ID][1])
+	}
 	out = append(out, int64(len(c.Tiers)))
 	for _, t := range c.Tiers {
 		out = append(out, int64(len(t)))
@@ -126,7 +135,8 @@ func (c Spec) Enc() []int64 {
 
 // DecSpec reads the spec prefix of a case input.
 func DecSpec(r *sched.Tok) Spec {
-	c := Spec{PGPhase: map[int64]int64{}, JPrio: map[int64]int64{}, JSys: map[int64]bool{}, TClass: map[int64]int64{}, QRecl: map[int64]int64{}}
+	c := Spec{PGPhase: map[int64]int64{}, JPrio: map[int64]int64{}, JSys: map[int64]bool{}, TClass: map[int64]int64{}, QRecl: map[int64]int64{},
+		QGuar: map[int64][2]int64{}, QDes: map[int64][2]int64{}}
 	_ = r.Next()
 	r.List(func() {
 		c.Nodes = append(c.Nodes, sched.NodeSpec{ID: r.Next(), Has: r.Bool(), CPU: r.Next(), Mem: r.Next(), Pods: r.Next(), GPU: r.Next()})
@@ -148,6 +158,11 @@ func DecSpec(r *sched.Tok) Spec {
 	r.List(func() { id := r.Next(); c.TClass[id] = r.Next() })
 	r.List(func() { id := r.Next(); c.QRecl[id] = r.Next() })
 	r.List(func() {
+		id := r.Next()
+		c.QGuar[id] = [2]int64{r.Next(), r.Next()}
+		c.QDes[id] = [2]int64{r.Next(), r.Next()}
+	})
+	r.List(func() {
 		t := []Plug{}
 		r.List(func() { t = append(t, Plug{Kind: r.Next(), Pre: r.Bool(), Rec: r.Bool()}) })
 		c.Tiers = append(c.Tiers, t)
@@ -166,6 +181,7 @@ type TraceEv struct {
 	Node   int64
 	Cands  []int64 // 11: candidate ids in the order the action passed them
 	CandSt []int64 // 11: their statuses as passed
+	QOrder []int64 // 11: pop order of the victims queue over these candidates
 	Action int64   // index into Spec.Actions
 	obs    []CandObs
 }
@@ -176,6 +192,7 @@ type World struct {
 	Trace    []TraceEv
 	curAct   int64
 	PropSnap func() proportion.VerifSnapshot
+	CapSnap  func() capacity.VerifSnapshot
 	jobKey   map[int64]api.JobID
 }
 
@@ -244,6 +261,7 @@ func (p *recPlugin) OnSessionOpen(ssn *framework.Session) {
 			}
 			ev.obs = append(ev.obs, o)
 		}
+		ev.QOrder = PopOrder(ssn, p, cands)
 		w.Trace = append(w.Trace, ev)
 		return nil, 0 // abstain
 	}
@@ -321,6 +339,22 @@ func NewWorld(spec Spec) *World {
 		case 2:
 			f := false
 			qo.Spec.Reclaimable = &f
+		}
+		rl := func(v [2]int64) v1.ResourceList {
+			out := v1.ResourceList{}
+			if v[0] > 0 {
+				out[v1.ResourceCPU] = *resource.NewMilliQuantity(v[0], resource.DecimalSI)
+			}
+			if v[1] > 0 {
+				out[v1.ResourceMemory] = *resource.NewQuantity(v[1], resource.BinarySI)
+			}
+			return out
+		}
+		if g := rl(spec.QGuar[q.ID]); len(g) > 0 {
+			qo.Spec.Guarantee.Resource = g
+		}
+		if d := rl(spec.QDes[q.ID]); len(d) > 0 {
+			qo.Spec.Deserved = d
 		}
 		qi := api.NewQueueInfo(qo)
 		snap.Queues[qi.UID] = qi
@@ -401,6 +435,11 @@ func NewWorld(spec Spec) *World {
 		w.PropSnap = snapf
 		return p
 	})
+	framework.RegisterPluginBuilder(capacity.PluginName, func(a framework.Arguments) framework.Plugin {
+		p, snapf := capacity.VerifNew(a)
+		w.CapSnap = snapf
+		return p
+	})
 	opt := func(name string) conf.PluginOption {
 		o := conf.PluginOption{Name: name}
 		plugins.ApplyPluginConfDefaults(&o)
@@ -437,6 +476,50 @@ func (w *World) queueAlloc(q int64) *api.Resource {
 		}
 	}
 	return r
+}
+
+func (w *World) hasKind(k int64) bool {
+	for _, t := range w.Spec.Tiers {
+		for _, p := range t {
+			if p.Kind == k {
+				return true
+			}
+		}
+	}
+	return false
+}
+
+// CapLimits: per queue the capacity plugin holds a record for: id, deserved, guarantee, realCapability
+// (all exact: sums / minima / maxima of Quantities).
+func (w *World) CapLimits() []int64 {
+	if w.CapSnap == nil || !w.hasKind(KCap) {
+		return []int64{0}
+	}
+	s := w.CapSnap()
+	ids := sched.SortedIDs(s.Queues, func(q api.QueueID) int64 { return sched.ParseID(string(q)) })
+	out := []int64{int64(len(ids))}
+	for _, id := range ids {
+		r := s.Queues[api.QueueID(sched.QueueName(id))]
+		out = append(out, id)
+		out = append(out, sched.EncRes(r.Deserved)...)
+		out = append(out, sched.EncRes(r.Guarantee)...)
+		out = append(out, sched.EncRes(r.RealCapability)...)
+	}
+	return out
+}
+
+// PopOrder: the order in which the session's victims queue pops these candidates (what the capacity
+// plugin's ReclaimableFn iterates over, and what the actions evict in).
+func PopOrder(ssn *framework.Session, p *api.TaskInfo, cands []*api.TaskInfo) []int64 {
+	out := []int64{}
+	if len(cands) == 0 {
+		return out
+	}
+	q := ssn.BuildVictimsPriorityQueue(cands, p)
+	for !q.Empty() {
+		out = append(out, sched.ParseID(string(q.Pop().(*api.TaskInfo).UID)))
+	}
+	return out
 }
 
 func (w *World) HasProp() bool {
